@@ -80,6 +80,14 @@ Ids(ts) == [i \in DOMAIN ts |-> ts[i].id]
 WithId(ts, n) == [q \in DOMAIN ts |-> IF "id" \in DOMAIN ts[q] THEN ts[q]
                                        ELSE [id |-> n, min |-> ts[q].min, max |-> ts[q].max, refs |-> ts[q].refs, logs |-> ts[q].logs]]
 
+(* a caller that goes on after a refused table of a multi-table Addition and commits: which tables are accepted, one by one, *)
+(* each validated against the stack extended by the tables accepted before it                                               *)
+RECURSIVE GoOnAcc(_, _, _)
+GoOnAcc(live, parts, k) ==
+  IF k > Len(parts) THEN <<>>
+  ELSE LET ok == TxnAccept(live, <<parts[k]>>) IN
+       <<ok>> \o GoOnAcc(IF ok THEN NetLive(live, <<parts[k]>>, 1) ELSE live, parts, k + 1)
+
 TAdd ==
   /\ Is("add")
   /\ LET h == E.h
@@ -89,11 +97,14 @@ TAdd ==
          \* intermediate state (an earlier table conflicts, a later one resolves it) may be accepted or
          \* refused: the specification follows the code there (DESIGN.md 5.0).
          dontcare == E.namecheck /\ legal /\ ~PrefixesLegal(LiveNames(tabs), E.parts) /\ E.res \in {"ok", "rejected"}
-         accept == IF dontcare THEN E.res = "ok" ELSE legal
+         goon == "goon" \in DOMAIN E /\ E.goon
+         accSeq == IF E.namecheck THEN GoOnAcc(LiveNames(tabs), E.parts, 1) ELSE [p \in DOMAIN E.parts |-> TRUE]
+         partsEff == IF goon THEN [p \in DOMAIN E.parts |-> IF accSeq[p] THEN E.parts[p] ELSE [refs |-> <<>>, logs |-> <<>>]] ELSE E.parts
+         accept == IF goon THEN TRUE ELSE IF dontcare THEN E.res = "ok" ELSE legal
          \* the caller chooses the update index of its tables: any index from the next one on is legal (a retried transaction
          \* prepared before a compaction emptied the stack carries a larger one)
          first == IF "idx" \in DOMAIN E /\ E.idx > NextIndex(tabs) THEN E.idx ELSE NextIndex(tabs)
-         new == PartTabs(E.parts, first, nextTab)
+         new == PartTabs(partsEff, first, nextTab)
          plain == tabs \o new
          \* a transaction prepared for an update index that is no longer the next one (the caller computed it before
          \* its handle was refreshed) must fail like a stale one: update indices only grow
@@ -118,6 +129,7 @@ TAdd ==
           \cup (IF foreign THEN Cmp(E.res, ownRes, "C15_AcceptAgree") ELSE {})
           \cup Cmp(E.dirshape, Shape(after), IF expRes = "ok" THEN (IF E.auto THEN "C17_AutoCompactRange" ELSE "C04_StackAfterAdd") ELSE "C09_DirUnchanged")
           \cup Fail(E.res # "ok" \/ ~E.namecheck \/ ~Conflict(LiveNames(after)), "C12_NoConflict")
+          \cup (IF goon /\ "accepted" \in DOMAIN E THEN Cmp(E.accepted, accSeq, "C12_AcceptIffLegal") ELSE {})
           \cup Residue(E, E.dirshape)
   /\ Step
 
